@@ -1381,15 +1381,25 @@ impl<'a, SE: extensions::ShellExtensions> WordExpander<'a, SE> {
                 let expanded_offset = min(expanded_offset, expanded_parameter_len);
 
                 let end_offset = if let Some(length) = length {
-                    let mut expanded_length = length.eval(self.shell, self.params, false).await?;
+                    let expanded_length = length.eval(self.shell, self.params, false).await?;
                     if expanded_length < 0 {
-                        expanded_length += expanded_parameter_len;
+                        // A negative length is an offset from the end of the value; it denotes
+                        // where the result ends, and that can't be before where it starts.
+                        let end_offset = expanded_parameter_len.saturating_add(expanded_length);
+                        if end_offset < expanded_offset {
+                            return Err(error::ErrorKind::CheckedExpansionError(std::format!(
+                                "{expanded_length}: substring expression < 0"
+                            ))
+                            .into());
+                        }
+
+                        end_offset
+                    } else {
+                        let expanded_length =
+                            min(expanded_length, expanded_parameter_len - expanded_offset);
+
+                        expanded_offset + expanded_length
                     }
-
-                    let expanded_length =
-                        min(expanded_length, expanded_parameter_len - expanded_offset);
-
-                    expanded_offset + expanded_length
                 } else {
                     expanded_parameter_len
                 };
